@@ -55,7 +55,7 @@ CHECKS.update({
 
 ALG = "Modelled, not verified: hash container iteration order (theorems hold for every order), anyhow's error text. "
 CHECKS.update({
- "C11": ("proof", "Props.C11 on the two-pass program mergeRec2 (the one executed and compared with the real merge()): model_refines (program over the API, so C01-C03 keep applying), two_pass_is_first_pass, grafts (every path of the tree exists from `left`; everything the left graph had survives), data_and_injective, new_vertices (one new vertex per lacking path, under an absent id), tree_merge_is_ok, keeps_path_injectivity; second_pass_is_noop_partial. Tie: random tree pairs merged on the real code and on the model; monC11 checks paths/data markers/injectivity/preservation/new-vertex count on the observed graphs and compares outcome, alive set and the drain with the reference run.",
+ "C11": ("proof", "Props.C11 on the two-pass program mergeRec2 (the one executed and compared with the real merge()): model_refines (program over the API, so C01-C03 keep applying), two_pass_is_first_pass, grafts (every path of the tree exists from `left`; everything the left graph had survives), data_and_injective, new_vertices (one new vertex per lacking path, under an absent id), tree_merge_is_ok, keeps_path_injectivity; two_pass_eq_first_pass (the second pass never reports a difference on a tree, at every node), run_succeeds (the run returns a table whenever its calls stay inside the limits) and merge_of_tree (end to end on the model: merge returns Ok, the state stays related to a reference state, every path of the tree exists from `left`, nothing of the left graph is lost). Tie: random tree pairs merged on the real code and on the model; monC11 checks paths/data markers/injectivity/preservation/new-vertex count on the observed graphs and compares outcome, alive set and the drain with the reference run.",
          "structural induction over trees + program refinement in Lean 4; differential correspondence; graft monitor", "7 C11"),
  "C12": ("proof", "Props.C12.ok_implies_complete and unreachable_gives_err (table keys are duplicate-free and reachable from `right`, so an unreachable present vertex makes the table strictly shorter and is named as missed), merge_outcome (the model makes the mapped.len()==g.len() test literally), model_refines. Tie: broken right graphs merged on the real code; monC12 accepts Ok only if every present right vertex is reachable and compares the ids named after 'missed:'.",
          "cardinality argument over the mapping table in Lean 4; differential correspondence", "7 C12"),
